@@ -479,3 +479,48 @@ def sha_tree(path, exts=(".rs", ".toml")):
                 h.update(p.encode())
                 h.update(open(p, "rb").read())
     return h.hexdigest()[:16]
+
+# ------------------------------------------------------------------------------------------------
+# the container model is itself an obligation (DESIGN.md §2.4): model_vs_std_* harnesses
+
+
+def run_model_diff(root, jobs=4, mem_gb=10, per_to=1500):
+    """Run the `model_vs_std_*` Kani harnesses of /verif/model (the array-backed VecDeque model against
+    std::collections::VecDeque, symbolic contents and arguments) in a scratch copy.
+    Returns (list of pseudo harness entries, dict name -> result, cmd)."""
+    mroot = os.path.join(root, "model-diff")
+    shutil.rmtree(mroot, ignore_errors=True)
+    shutil.copytree(MODEL_DIR, mroot, ignore=shutil.ignore_patterns("target", "bytes-kani", "tests"))
+    with open(os.path.join(mroot, "Cargo.toml"), "a") as f:
+        f.write("\n[workspace]\n")
+    out_json = os.path.join(mroot, "out.json")
+    cmd = ["cargo", "kani", "--features", "cap4", "--target-dir", os.path.join(mroot, "target"),
+           "--output-format", "terse", "-Z", "unstable-options", "-j", str(jobs),
+           "--harness-timeout", f"{per_to}s", "--export-json", out_json, "--harness", "model_vs_std_"]
+    logf = os.path.join(mroot, "log.txt")
+    with open(logf, "w") as lf:
+        p = subprocess.Popen(cmd, cwd=mroot, stdout=lf, stderr=subprocess.STDOUT, env=env_offline(),
+                             preexec_fn=_limit(mem_gb))
+        try:
+            p.wait(timeout=per_to * 4)
+        except subprocess.TimeoutExpired:
+            try:
+                os.killpg(p.pid, signal.SIGKILL)
+            except ProcessLookupError:
+                pass
+            p.wait()
+    text = open(logf, errors="replace").read()
+    if not os.path.exists(out_json):
+        raise InfraError("model_vs_std harnesses produced no result:\n" + "\n".join(text.splitlines()[-20:]))
+    data = json.load(open(out_json))
+    names = [r["harness_id"] for r in data.get("verification_results", {}).get("results", [])]
+    hs = []
+    for fq in names:
+        hs.append({"name": fq.split("::")[-1], "_fq": fq, "_crate": "verif_model", "tier": "thorough",
+                   "_hfile": os.path.join(mroot, "src", "kani_diff.rs"), "timeout": per_to,
+                   "claim": "container model obligation: verif_model::VecDeque behaves exactly like std::collections::VecDeque "
+                            "for this method group (same return values, same resulting sequence)",
+                   "bounds": "concrete element count (see harness name), symbolic u8 contents, symbolic indices/ranges <= 5, CAP = 4",
+                   "functions": ["verif_model::VecDeque::*", "std::collections::VecDeque::*"]})
+    res = harness_results(data, text, hs)
+    return hs, {h["name"]: res[h["_fq"]] for h in hs}, " ".join(cmd)
